@@ -15,6 +15,10 @@ use quote::ToTokens;
 use std::path::{Path, PathBuf};
 use syn::visit::Visit;
 
+/// dimension audit (aC11): case kinds `px`, `gx`, `gseq`, `mx`, `cmt` (see the header of that file)
+#[path = "c11_x.rs"]
+mod x;
+
 // ---------------------------------------------------------------------------------------------
 // descriptors
 
@@ -1532,6 +1536,8 @@ pub fn generate(tier: &str, rng: &mut Rng) -> Vec<String> {
         let api = if rng.chance(1, 2) { "routes" } else { "builder" };
         out.push(e2e_line(api, *rng.pick(&Wrap::ALL), &order, i, j, rng.below(40) as usize));
     }
+    // ---- dimension audit (aC11): descriptor sets, entry points, knobs, builder histories
+    out.extend(x::generate_x(tier, rng));
     out
 }
 
@@ -1544,6 +1550,6 @@ pub fn execute(case: &str) -> String {
         "e2e" => run_e2e(&t),
         "srv" => run_srv(&t),
         "regen" => run_regen(),
-        _ => "bad-case".into(),
+        _ => x::execute_x(&t).unwrap_or_else(|| "bad-case".into()),
     }
 }
